@@ -24,15 +24,16 @@ structure WFwire (k : Key) (v : Val) (ts : List Key) (d : Time) : Prop where
   trig_ne : ∀ t ∈ ts, t ≠ []
   /-- names are NUL-terminated on the wire and split with `strlen` -/
   trig_nul : ∀ t ∈ ts, (0 : UInt8) ∉ t
-  /-- `uint32_t` length fields, `int slen=len` in `load_triggers` -/
-  size : k.length + v.length + (ts.map (·.length + 1)).sum < 2147483648
+  /-- `uint32_t` length fields, `int slen=len` / `int len=…` in the `strlen` loops of both directions (the
+  entry's own key travels back as one more name: `+ 2` covers its terminator; sufficient, not tight) -/
+  size : k.length + v.length + (ts.map (·.length + 1)).sum + 2 < 2147483648
   /-- `int64_t timeout` (always true of a 64-bit `time_t`) -/
   deadline : -9223372036854775808 ≤ d ∧ d < 9223372036854775808
 
 /-- executable form (driver, generator self-check) -/
 def wfWireB (k : Key) (v : Val) (ts : List Key) (d : Time) : Bool :=
   !k.isEmpty && ts.all (fun t => !t.isEmpty && !t.contains 0) &&
-  decide (k.length + v.length + (ts.map (·.length + 1)).sum < 2147483648) &&
+  decide (k.length + v.length + (ts.map (·.length + 1)).sum + 2 < 2147483648) &&
   decide (-9223372036854775808 ≤ d) && decide (d < 9223372036854775808)
 
 /-- the key travels back as one of the entry's trigger names when a fetch asks for the trigger
